@@ -366,9 +366,73 @@ func c14Fix(w *W) {
 	seen := map[string]bool{}
 	HolidayUtil.VerifReset()
 	seen[key()] = true
+	firstOp := atoi(w.Shard.Arg)
+	// step -> Fix -> step inside this fresh process (no reset in between): workday stepping must follow the record set
+	// as it is *now*, also when the same days were stepped over before the fix-up
+	{
+		op := ops[firstOp]
+		var days []string
+		for dt := op.data; len(dt) >= 18; dt = dt[18:] {
+			days = append(days, dt[:8])
+		}
+		walk := func(tag string) {
+			names, data := HolidayUtil.VerifState()
+			m, _, _ := r5Parse(names, data)
+			works := func(j int) bool {
+				y, mo, d := r1FromJDN(j)
+				if r, ok := m[fmt.Sprintf("%04d%02d%02d", y, mo, d)]; ok {
+					return r.work
+				}
+				wd := r1Weekday(j)
+				return wd != 0 && wd != 6
+			}
+			for _, ds := range days {
+				y, mo, d := atoi(ds[:4]), atoi(ds[4:6]), atoi(ds[6:8])
+				if !r1Valid(y, mo, d) {
+					continue
+				}
+				j0 := r1JDN(y, mo, d)
+				for off := -4; off <= 4; off++ {
+					for _, n := range []int{1, -1, 3, -3} {
+						j := j0 + off
+						tj, rest := j, n
+						if rest < 0 {
+							rest = -rest
+						}
+						for rest > 0 {
+							if n > 0 {
+								tj++
+							} else {
+								tj--
+							}
+							if works(tj) {
+								rest--
+							}
+						}
+						sy, sm, sd := r1FromJDN(j)
+						var got *calendar.Solar
+						if msg, p := try(func() { got = calendar.NewSolarFromYmd(sy, sm, sd).Next(n, true) }); p {
+							w.Viol("C14:Fix:walk:panic:"+op.name, msg, op.name)
+							continue
+						}
+						w.R.Transitions++
+						w.R.Traces++
+						if got.ToYmd() != r1Ymd(tj) {
+							w.Viol("C14:Fix:workday-walk:"+tag+":"+op.name, fmt.Sprintf("%s fix-up %q: %s.Next(%d,true) = %s, the record set as it is now gives %s", tag, op.name, r1Ymd(j), n, got.ToYmd(), r1Ymd(tj)), []string{op.name, r1Ymd(j)})
+						}
+					}
+				}
+			}
+		}
+		HolidayUtil.VerifReset()
+		walk("before")
+		if _, p := try(func() { HolidayUtil.Fix(op.names, op.data) }); !p {
+			walk("after")
+		}
+		HolidayUtil.VerifReset()
+	}
 	frontier := []node{{nil}}
 	maxDepth := 0
-	firstOp := atoi(w.Shard.Arg)
 	for dep := 1; dep <= depth; dep++ {
 		var next []node
 		for _, nd := range frontier {
